@@ -29,6 +29,14 @@ def run(ctx):
         for fam in range(5, 9):
             for alg in range(3):
                 jobs.append((exe, [fam, alg, 3, 0], be + "-nostl", fam == 8))
+    # the C++ classes in an assertion-free build (-DNDEBUG, as CMake's RelWithDebInfo / MinSizeRel define it)
+    for be in (("asm", "c32") if ctx.thorough else ("asm",)):
+        lib = build.build_lib(be, extra=["-DNDEBUG"])
+        exe = build.build_prog("c02", ["harness/c02.c", "harness/cpp_shim.cpp", "harness/sysrand.c", "ref/ref.c"], lib, extra=["-DNDEBUG"])
+        ctx.configs.append(lib["desc"] + " NDEBUG")
+        for fam in range(5, 9):
+            for alg in range(3):
+                jobs.append((exe, [fam, alg, 3, 0], be + "-ndebug", fam == 8))
     # the masked family additionally under other share counts (its decrypt path differs per data-share count)
     for be in ("asm", "c64", "c32"):
         for tr in ([(2, 1, 2), (3, 3, 3), (4, 4, 4), (4, 1, 4), (3, 2, 3)] if not ctx.thorough else [t for t in build.ALL_TRIPLES if t != build.DEFAULT_TRIPLE]):
